@@ -1,32 +1,76 @@
-import FrappyProofs.Lemmas.WireRoundtrip
+import FrappyProofs.Lemmas.WireCore
 /-
 C02: `from_string (to_string v)` is accepted and has the identical text form — by mutual structural
-induction over datatype trees without struct nodes (leaves, arrays, tuples incl. the one-member tuple).
+induction over all datatype trees (leaves, arrays, tuples incl. the one-member tuple, structs with their members in
+the order of the value).  The value the text is read as is `Sendable` (finite double leaves, scaled leaves the grid
+reproduces): what the client string write needs.
 -/
 set_option linter.unusedSectionVars false
 set_option linter.unusedVariables false
 namespace Frappy.Lemmas.C02
 open FloatOps DType Frappy.Datatypes Frappy.Spec.C01 Frappy.Spec.C02
-open PVal (seqItems?)
+open PVal (seqItems? dictSet)
 
 variable {F : Type} [FloatOps F] [WireLaws F]
 
 mutual
-/-- no struct node in the tree -/
-def NoStruct : DType F → Prop
-  | .struct _ _ _ => False
-  | .array e _ _ => NoStruct e
-  | .tuple es => NoStructList es
+/-- what the text round trip needs of the tree: `DType.WF` without the conditions on the limits of scaled leaves and
+on the optional list (a client's rebuilt type has other limits at its scaled leaves: `clientOf`) -/
+def WFT : DType F → Prop
+  | .double min max ar rr => (DType.double min max ar rr).WF
+  | .int min max => (DType.int min max : DType F).WF
+  | .enum ms => (DType.enum ms : DType F).WF
+  | .array e _ _ => WFT e
+  | .tuple es => WFTList es
+  | .struct ms _ _ => WFTFields ms
   | _ => True
-def NoStructList : List (DType F) → Prop
+def WFTList : List (DType F) → Prop
   | [] => True
-  | t :: ts => NoStruct t ∧ NoStructList ts
+  | t :: ts => WFT t ∧ WFTList ts
+def WFTFields : List (String × DType F) → Prop
+  | [] => True
+  | (_, t) :: ts => WFT t ∧ WFTFields ts
+end
+
+mutual
+theorem wft_of_wf : ∀ (dt : DType F), dt.WF → WFT dt
+  | .double .., h => by simpa [WFT] using h
+  | .int .., h => by simpa [WFT] using h
+  | .enum _, h => by simpa [WFT] using h
+  | .scaled .., _ => by simp [WFT]
+  | .bool, _ => by simp [WFT]
+  | .string .., _ => by simp [WFT]
+  | .blob .., _ => by simp [WFT]
+  | .array e _ _, h => by
+    simp only [DType.WF] at h
+    simp only [WFT]
+    exact wft_of_wf e h.1
+  | .tuple es, h => by
+    simp only [DType.WF] at h
+    simp only [WFT]
+    exact wft_of_wf_list es h.2
+  | .struct ms _ _, h => by
+    simp only [DType.WF] at h
+    simp only [WFT]
+    exact wft_of_wf_fields ms h.2.2.2
+theorem wft_of_wf_list : ∀ (ts : List (DType F)), WFList ts → WFTList ts
+  | [], _ => by simp [WFTList]
+  | t :: ts, h => by
+    simp only [WFList] at h
+    simp only [WFTList]
+    exact ⟨wft_of_wf t h.1, wft_of_wf_list ts h.2⟩
+theorem wft_of_wf_fields : ∀ (ms : List (String × DType F)), WFFields ms → WFTFields ms
+  | [], _ => by simp [WFTFields]
+  | (_, t) :: ms, h => by
+    simp only [WFFields] at h
+    simp only [WFTFields]
+    exact ⟨wft_of_wf t h.1, wft_of_wf_fields ms h.2⟩
 end
 
 /-- what the text round trip of one node establishes -/
 def TR (lib : TextLib F) (pos : List Nat) (dt : DType F) (v : PVal F) : Prop :=
   ∃ s w v', formatValue lib pos dt v = some s ∧ literalEval lib s = some w ∧ call dt w = .ok v' ∧
-    formatValue lib pos dt v' = some s ∧ SameButFloats v' v
+    formatValue lib pos dt v' = some s ∧ SameButFloats v' v ∧ Sendable dt v'
 
 theorem find_member_name {ms : List (String × Int)} {n : String} {k : Int} (hm : (n, k) ∈ ms)
     (hnd : (ms.map (·.1)).Nodup) : enumByName ms n = some (n, k) := by
@@ -53,6 +97,14 @@ theorem canonList_mem : ∀ (vs : List (PVal F)), CanonList vs → ∀ x ∈ vs,
     · exact h.1
     · exact canonList_mem vs h.2 x hx
 
+theorem canonFields_mem : ∀ (fs : List (String × PVal F)), CanonFields fs → ∀ kv ∈ fs, Canon kv.2
+  | [], _, x, hx => by cases hx
+  | (k, v) :: fs, h, x, hx => by
+    simp only [CanonFields] at h
+    rcases List.mem_cons.mp hx with rfl | hx
+    · exact h.1
+    · exact canonFields_mem fs h.2 x hx
+
 theorem parenValue_len (ws : List (PVal F)) (n : Nat) (h : ws.length = n) :
     parenValue (n == 1) ws = .tuple ws := by
   match ws, h with
@@ -60,16 +112,91 @@ theorem parenValue_len (ws : List (PVal F)) (n : Nat) (h : ws.length = n) :
   | [w], h => subst h; simp [parenValue]
   | a :: b :: rest, h => subst h; simp [parenValue]
 
-theorem mapFormat_tr {lib : TextLib F} {f : PVal F → Option Surf} {g : PVal F → Option (PVal F) → Res F} :
+/-! ### what `__call__` returns at the float leaves -/
+
+/-- `clamp(-max, x, max)` of a number is finite -/
+theorem median3_finite (x : F) (hn : isNaN x = false) : FiniteNum (median3 (neg maxFinite) x maxFinite) := by
+  have hac := WireLaws.negMax_le_max (F := F)
+  obtain ⟨ha, hc⟩ := WireLaws.le_notNaN _ _ hac
+  unfold median3
+  by_cases h1 : le (neg maxFinite) x = true
+  · by_cases h2 : le x maxFinite = true
+    · simp only [h1, h2, if_true]
+      exact ⟨hn, h1, h2⟩
+    · simp only [h1, h2, hac, if_true]
+      exact ⟨hc, hac, WireLaws.le_refl _ hc⟩
+  · simp only [h1, hac, if_true]
+    exact ⟨ha, WireLaws.le_refl _ ha, hac⟩
+
+theorem doubleCall_finite {w : PVal F} {y : F} (h : doubleCall w = .ok y) : FiniteNum y := by
+  unfold doubleCall at h
+  split at h
+  · cases h
+  · rename_i x hx
+    by_cases hn : isNaN x = true
+    · simp [hn] at h
+    · have hn' : isNaN x = false := by simpa using hn
+      simp only [hn'] at h
+      cases h
+      exact median3_finite x hn'
+
+theorem scaledCall_notNaN {scale : F} {w : PVal F} {y : F} (h : scaledCall scale w = .ok y) : isNaN y = false := by
+  unfold scaledCall at h
+  split at h
+  · cases h
+  · split at h
+    · cases h
+    · split at h
+      · cases h
+      · split at h
+        · rename_i hf
+          cases h
+          simp only [isFinite, Bool.and_eq_true, Bool.not_eq_true'] at hf
+          exact hf.1
+        · cases h
+
+/-- `FloatRange.__call__` takes any number that is not NaN and brings it into the float range -/
+theorem doubleCall_of_number {w : PVal F} {r : F} (h : PVal.toFloat? w = some r) (hn : isNaN r = false) :
+    doubleCall w = .ok (median3 (neg maxFinite) r maxFinite) := by
+  simp [doubleCall, h, hn]
+
+/-- `ScaledInteger.__call__` takes any number whose nearest grid value exists and is finite, and returns that grid value -/
+theorem scaledCall_of_number {scale : F} {w : PVal F} {r y : F} (h : PVal.toFloat? w = some r)
+    (hs : DType.snap scale r = some y) (hf : isFinite y = true) : scaledCall scale w = .ok y := by
+  unfold DType.snap at hs
+  cases hg : DType.gridIndex scale r with
+  | none => rw [hg] at hs; cases hs
+  | some k =>
+    rw [hg] at hs
+    simp only [DType.ofGrid] at hs
+    cases hk : (ofInt k : Option F) with
+    | none => rw [hk] at hs; cases hs
+    | some yk =>
+      rw [hk] at hs
+      simp only [Option.some.injEq] at hs
+      subst hs
+      simp [scaledCall, h, hg, hk, hf]
+
+/-- `dt(None)` is refused by every datatype -/
+theorem call_ne_none (dt : DType F) (v' : PVal F) : call dt .none ≠ .ok v' := by
+  cases dt <;> simp [call, conv, doubleCall, scaledCall, intCall, boolCall, enumCall, stringCall, blobCall,
+    PVal.toFloat?, seqItems?, Except.map]
+
+/-! ### containers -/
+
+theorem mapFormat_tr {lib : TextLib F} {f : PVal F → Option Surf} {g : PVal F → Option (PVal F) → Res F}
+    {Q : PVal F → Prop} :
     ∀ (vs : List (PVal F)),
-    (∀ v ∈ vs, ∃ s w v', f v = some s ∧ literalEval lib s = some w ∧ g w none = .ok v' ∧ f v' = some s ∧ SameButFloats v' v) →
+    (∀ v ∈ vs, ∃ s w v', f v = some s ∧ literalEval lib s = some w ∧ g w none = .ok v' ∧ f v' = some s ∧
+      SameButFloats v' v ∧ Q v') →
     ∃ ss ws vs', mapFormat f vs = some ss ∧ literalEvalList lib ss = some ws ∧ mapPrev g ws [] = .ok vs' ∧
-      mapFormat f vs' = some ss ∧ SameButFloatsList vs' vs ∧ ws.length = vs.length ∧ vs'.length = vs.length
-  | [], _ => ⟨[], [], [], rfl, by simp [literalEvalList], rfl, rfl, by simp [SameButFloatsList], rfl, rfl⟩
+      mapFormat f vs' = some ss ∧ SameButFloatsList vs' vs ∧ ws.length = vs.length ∧ vs'.length = vs.length ∧
+      (∀ x ∈ vs', Q x)
+  | [], _ => ⟨[], [], [], rfl, by simp [literalEvalList], rfl, rfl, by simp [SameButFloatsList], rfl, rfl, by simp⟩
   | v :: vs, h => by
-    obtain ⟨s, w, v', h1, h2, h3, h4, h5⟩ := h v (List.mem_cons_self ..)
-    obtain ⟨ss, ws, vs', g1, g2, g3, g4, g5, g6, g7⟩ := mapFormat_tr vs (fun x hx => h x (List.mem_cons_of_mem _ hx))
-    refine ⟨s :: ss, w :: ws, v' :: vs', ?_, ?_, ?_, ?_, ?_, ?_, ?_⟩
+    obtain ⟨s, w, v', h1, h2, h3, h4, h5, h6⟩ := h v (List.mem_cons_self ..)
+    obtain ⟨ss, ws, vs', g1, g2, g3, g4, g5, g6, g7, g8⟩ := mapFormat_tr vs (fun x hx => h x (List.mem_cons_of_mem _ hx))
+    refine ⟨s :: ss, w :: ws, v' :: vs', ?_, ?_, ?_, ?_, ?_, ?_, ?_, ?_⟩
     · simp [mapFormat, h1, g1]
     · simp [literalEvalList, h2, g2]
     · simp [mapPrev, h3, g3]
@@ -77,108 +204,226 @@ theorem mapFormat_tr {lib : TextLib F} {f : PVal F → Option Surf} {g : PVal F 
     · simp [SameButFloatsList, h5, g5]
     · simp [g6]
     · simp [g7]
+    · intro x hx
+      rcases List.mem_cons.mp hx with rfl | hx
+      · exact h6
+      · exact g8 x hx
+
+theorem foldFields_cons {g : String → PVal F → Option (Res F)} (k : String) (w r : PVal F)
+    (rest acc : List (String × PVal F)) (hw : w ≠ .none) (hg : g k w = some (.ok r)) :
+    foldFields g ((k, w) :: rest) acc = foldFields g rest (dictSet acc k r) := by
+  cases w <;> simp_all [foldFields]
+
+theorem structCheck_ok' (names opt : List String) (allow : Bool) (items : List (String × PVal F))
+    (h1 : ∀ kv ∈ items, kv.1 ∈ names) (h2 : ∀ kv ∈ items, kv.2 ≠ .none)
+    (h3 : ∀ k ∈ names, (allow = true ∧ k ∈ opt) ∨ k ∈ items.map (·.1)) : structCheck names opt allow items = true := by
+  simp only [structCheck, Bool.and_eq_true, List.all_eq_true, Bool.or_eq_true, givenKeys_of_noNone items h2]
+  refine ⟨fun kv hkv => by simpa using h1 kv hkv, fun k hk => ?_⟩
+  rcases h3 k hk with ⟨ha, ho⟩ | hin
+  · right; simp [ha, ho]
+  · left; simpa using hin
+
+/-- the members of a struct value, one after the other: printed with their quoted keys, read into a dict (no key
+repeats, so every `d[k] = w` appends), converted member by member into a dict with the same keys in the same order -/
+theorem fields_tr {lib : TextLib F} (hl : TextLib.Lawful lib) {f : String → PVal F → Option Surf}
+    {g : String → PVal F → Option (Res F)} {Q : String → PVal F → Prop} :
+    ∀ (fields acc acc' : List (String × PVal F)),
+    (∀ kv ∈ fields, ∃ s w v', f kv.1 kv.2 = some s ∧ literalEval lib s = some w ∧ w ≠ .none ∧
+      g kv.1 w = some (.ok v') ∧ f kv.1 v' = some s ∧ SameButFloats v' kv.2 ∧ Q kv.1 v') →
+    (fields.map (·.1)).Nodup → (∀ k ∈ fields.map (·.1), k ∉ acc.map (·.1)) → (∀ k ∈ fields.map (·.1), k ∉ acc'.map (·.1)) →
+    ∃ sfs ws vs', mapFieldsFormat lib.reprStr f fields = some sfs ∧
+      literalEvalFields lib sfs acc = some (acc ++ ws) ∧ foldFields g ws acc' = .ok (acc' ++ vs') ∧
+      mapFieldsFormat lib.reprStr f vs' = some sfs ∧ SameButFloatsFields vs' fields ∧
+      ws.map (·.1) = fields.map (·.1) ∧ vs'.map (·.1) = fields.map (·.1) ∧ (∀ kv ∈ ws, kv.2 ≠ .none) ∧
+      (∀ kv ∈ vs', Q kv.1 kv.2)
+  | [], acc, acc', _, _, _, _ =>
+    ⟨[], [], [], rfl, by simp [literalEvalFields], by simp [foldFields], rfl, by simp [SameButFloatsFields], rfl, rfl,
+      by simp, by simp⟩
+  | (k, v) :: rest, acc, acc', h, hnd, hdis, hdis' => by
+    obtain ⟨s, w, v', h1, h2, hw, h3, h4, h5, h6⟩ := h (k, v) (List.mem_cons_self ..)
+    simp only [List.map_cons, List.nodup_cons] at hnd
+    have hset : dictSet acc k w = acc ++ [(k, w)] := dictSet_fresh acc k w (hdis k (by simp))
+    have hset' : dictSet acc' k v' = acc' ++ [(k, v')] := dictSet_fresh acc' k v' (hdis' k (by simp))
+    have hd : ∀ k' ∈ rest.map (·.1), k' ∉ (acc ++ [(k, w)]).map (·.1) := by
+      intro k' hk' hmem
+      simp only [List.map_append, List.map_cons, List.map_nil, List.mem_append, List.mem_singleton] at hmem
+      rcases hmem with hmem | rfl
+      · exact hdis k' (by simp [hk']) hmem
+      · exact hnd.1 hk'
+    have hd' : ∀ k' ∈ rest.map (·.1), k' ∉ (acc' ++ [(k, v')]).map (·.1) := by
+      intro k' hk' hmem
+      simp only [List.map_append, List.map_cons, List.map_nil, List.mem_append, List.mem_singleton] at hmem
+      rcases hmem with hmem | rfl
+      · exact hdis' k' (by simp [hk']) hmem
+      · exact hnd.1 hk'
+    obtain ⟨sfs, ws, vs', g1, g2, g3, g4, g5, g6, g7, g8, g9⟩ :=
+      fields_tr hl rest (acc ++ [(k, w)]) (acc' ++ [(k, v')])
+        (fun kv hkv => h kv (List.mem_cons_of_mem _ hkv)) hnd.2 hd hd'
+    refine ⟨(lib.reprStr k, s) :: sfs, (k, w) :: ws, (k, v') :: vs', ?_, ?_, ?_, ?_, ?_, ?_, ?_, ?_, ?_⟩
+    · simp [mapFieldsFormat, h1, g1]
+    · simp [literalEvalFields, hl.evalStr, h2, hset, g2]
+    · rw [foldFields_cons k w v' ws acc' hw h3, hset', g3]
+      simp
+    · simp [mapFieldsFormat, h4, g4]
+    · simp [SameButFloatsFields, h5, g5]
+    · simp [g6]
+    · simp [g7]
+    · intro kv hkv
+      rcases List.mem_cons.mp hkv with rfl | hkv
+      · exact hw
+      · exact g8 kv hkv
+    · intro kv hkv
+      rcases List.mem_cons.mp hkv with rfl | hkv
+      · exact h6
+      · exact g9 kv hkv
 
 mutual
 theorem text_core (lib : TextLib F) (hl : TextLib.Lawful lib) : ∀ (dt : DType F) (pos : List Nat) (v : PVal F),
-    dt.WF → NoStruct dt → Valid dt v → Canon v → TR lib pos dt v
-  | .double min max ar rr, pos, v, hwf, hns, hv, hc => by
+    WFT dt → Valid dt v → Canon v → TextComplete dt v → TR lib pos dt v
+  | .double min max ar rr, pos, v, hwf, hv, hc, htc => by
     cases v <;> simp only [Valid, InSetG] at hv <;> try exact hv.elim
     case float x =>
       simp only [Canon] at hc
-      obtain ⟨_, hfin, _, _⟩ := double_rt hwf hv
-      obtain ⟨w, y, h1, h2, h3⟩ := hl.fmtDouble pos x hfin hc
-      exact ⟨.atom (lib.fmtFloat pos x), w, .float y, rfl, by simp [literalEval, h1],
-        by simp [call, conv, h2, Except.map], by simp [formatValue, fmtNumber, h3], by simp [SameButFloats]⟩
-  | .scaled scale min max ar rr, pos, v, hwf, hns, hv, hc => by
+      simp only [WFT] at hwf
+      have hfin := double_finite hwf hv
+      obtain ⟨w, r, h1, hr, hn, h3⟩ := hl.fmtDouble pos x hfin hc
+      have h2 := doubleCall_of_number hr hn
+      exact ⟨.atom (lib.fmtFloat pos x), w, .float (median3 (neg maxFinite) r maxFinite), rfl, by simp [literalEval, h1],
+        by simp [call, conv, h2, Except.map], by simp [formatValue, fmtNumber, h3], by simp [SameButFloats],
+        by simpa [Sendable] using doubleCall_finite h2⟩
+  | .scaled scale min max ar rr, pos, v, hwf, hv, hc, htc => by
     cases v <;> simp only [Valid, InSetG] at hv <;> try exact hv.elim
     case float x =>
       simp only [Canon] at hc
-      obtain ⟨w, y, h1, h2, h3⟩ := hl.fmtScaled pos scale x hv.1 hc
+      obtain ⟨w, r, y, h1, hr, hs, hf, h3, h4⟩ := hl.fmtScaled pos scale x hv.1 hc
+      have h2 := scaledCall_of_number hr hs hf
       exact ⟨.atom (lib.fmtFloat pos x), w, .float y, rfl, by simp [literalEval, h1],
-        by simp [call, conv, h2, Except.map], by simp [formatValue, fmtNumber, h3], by simp [SameButFloats]⟩
-  | .int min max, pos, v, hwf, hns, hv, hc => by
+        by simp [call, conv, h2, Except.map], by simp [formatValue, fmtNumber, h3], by simp [SameButFloats],
+        by simpa [Sendable] using And.intro h4 (scaledCall_notNaN h2)⟩
+  | .int min max, pos, v, hwf, hv, hc, htc => by
     cases v <;> simp only [Valid, InSetG] at hv <;> try exact hv.elim
     case int i =>
-      simp only [DType.WF] at hwf
+      simp only [WFT, DType.WF] at hwf
       obtain ⟨y, hy⟩ := WireLaws.ofInt_inRange (F := F) i (by omega) (by omega)
       exact ⟨.atom (lib.fmtInt i), .int i, .int i, rfl, by simp [literalEval, hl.evalInt],
-        by simp [call, conv, intCall, hy, Except.map], rfl, by simp [SameButFloats]⟩
-  | .bool, pos, v, hwf, hns, hv, hc => by
+        by simp [call, conv, intCall, hy, Except.map], rfl, by simp [SameButFloats], by simpa [Sendable, InSetG] using hv⟩
+  | .bool, pos, v, hwf, hv, hc, htc => by
     cases v <;> simp only [Valid, InSetG] at hv <;> try exact hv.elim
     case bool b =>
       exact ⟨.atom (lib.reprBool b), .bool b, .bool b, rfl, by simp [literalEval, hl.evalBool],
-        by simp [call, conv, boolCall, Except.map], rfl, by simp [SameButFloats]⟩
-  | .enum ms, pos, v, hwf, hns, hv, hc => by
+        by simp [call, conv, boolCall, Except.map], rfl, by simp [SameButFloats], by simp [Sendable, InSetG]⟩
+  | .enum ms, pos, v, hwf, hv, hc, htc => by
     cases v <;> simp only [Valid, InSetG] at hv <;> try exact hv.elim
     case enum n k =>
-      simp only [DType.WF] at hwf
+      simp only [WFT, DType.WF] at hwf
       have hf := find_member_name hv hwf.2.1
       exact ⟨.atom (lib.reprStr n), .str n, .enum n k, rfl, by simp [literalEval, hl.evalStr],
-        by simp [call, conv, enumCall, hf], rfl, by simp [SameButFloats]⟩
-  | .string minc maxc utf8, pos, v, hwf, hns, hv, hc => by
+        by simp [call, conv, enumCall, hf], rfl, by simp [SameButFloats], by simpa [Sendable, InSetG] using hv⟩
+  | .string minc maxc utf8, pos, v, hwf, hv, hc, htc => by
     cases v <;> simp only [Valid, InSetG] at hv <;> try exact hv.elim
     case str s =>
       have h := string_rt (F := F) hv
       exact ⟨.atom (lib.reprStr s), .str s, .str s, rfl, by simp [literalEval, hl.evalStr],
-        by simp [call, conv, h, Except.map], rfl, by simp [SameButFloats]⟩
-  | .blob minb maxb, pos, v, hwf, hns, hv, hc => by
+        by simp [call, conv, h, Except.map], rfl, by simp [SameButFloats], by simpa [Sendable, InSetG] using hv⟩
+  | .blob minb maxb, pos, v, hwf, hv, hc, htc => by
     cases v <;> simp only [Valid, InSetG] at hv <;> try exact hv.elim
     case bytes b =>
       have h1 : ¬ b.length < minb := by omega
       have h2 : ¬ b.length > maxb := by omega
       exact ⟨.atom (lib.reprBytes b), .bytes b, .bytes b, rfl, by simp [literalEval, hl.evalBytes],
-        by simp [call, conv, blobCall, h1, h2, Except.map], rfl, by simp [SameButFloats]⟩
-  | .array elem lo hi, pos, v, hwf, hns, hv, hc => by
+        by simp [call, conv, blobCall, h1, h2, Except.map], rfl, by simp [SameButFloats], by simpa [Sendable, InSetG] using hv⟩
+  | .array elem lo hi, pos, v, hwf, hv, hc, htc => by
     cases v <;> simp only [Valid, InSetG] at hv <;> try exact hv.elim
     case tuple vs =>
-      simp only [DType.WF] at hwf
-      simp only [NoStruct] at hns
+      simp only [WFT] at hwf
       simp only [Canon] at hc
+      simp only [TextComplete] at htc
       obtain ⟨hall, hlo, hhi⟩ := hv
       have hcl : ∀ x ∈ vs, Canon x := canonList_mem vs hc
-      obtain ⟨ss, ws, vs', g1, g2, g3, g4, g5, g6, g7⟩ :=
-        mapFormat_tr (lib := lib) (f := formatValue lib (pos ++ [0]) elem) (g := conv .call elem) vs (fun x hx => by
-          obtain ⟨s, w, v', a, b, c, d, e⟩ := text_core lib hl elem (pos ++ [0]) x hwf.1 hns (hall x hx) (hcl x hx)
-          exact ⟨s, w, v', a, b, c, d, e⟩)
+      obtain ⟨ss, ws, vs', g1, g2, g3, g4, g5, g6, g7, g8⟩ :=
+        mapFormat_tr (lib := lib) (f := formatValue lib (pos ++ [0]) elem) (g := conv .call elem) (Q := Sendable elem) vs
+          (fun x hx => by
+            obtain ⟨s, w, v', a, b, c, d, e, q⟩ := text_core lib hl elem (pos ++ [0]) x hwf (hall x hx) (hcl x hx) (htc x hx)
+            exact ⟨s, w, v', a, b, c, d, e, q⟩)
       have h1 : ¬ ws.length < lo := by omega
       have h2 : ¬ ws.length > hi := by omega
-      refine ⟨.list ss, .list ws, .tuple vs', ?_, ?_, ?_, ?_, ?_⟩
+      refine ⟨.list ss, .list ws, .tuple vs', ?_, ?_, ?_, ?_, ?_, ?_⟩
       · simp [formatValue, seqItems?, g1]
       · simp [literalEval, g2]
       · simp [call, conv, seqItems?, h1, h2, g3, mapErr, Except.map]
       · simp [formatValue, seqItems?, g4]
       · simpa [SameButFloats] using g5
-  | .tuple elems, pos, v, hwf, hns, hv, hc => by
+      · simp only [Sendable]
+        exact ⟨g8, by omega, by omega⟩
+  | .tuple elems, pos, v, hwf, hv, hc, htc => by
     cases v <;> simp only [Valid, InSetG] at hv <;> try exact hv.elim
     case tuple vs =>
-      simp only [DType.WF] at hwf
-      simp only [NoStruct] at hns
+      simp only [WFT] at hwf
       simp only [Canon] at hc
-      obtain ⟨ss, ws, vs', g1, g2, g3, g4, g5, g6, g7, g8⟩ := text_core_zip lib hl elems pos 0 vs hwf.2 hns hv hc
+      simp only [TextComplete] at htc
+      obtain ⟨ss, ws, vs', g1, g2, g3, g4, g5, g6, g7, g8, g9⟩ := text_core_zip lib hl elems pos 0 vs hwf hv hc htc
       have hlen : ws.length = ss.length := by omega
-      refine ⟨.paren ss (ss.length == 1), .tuple ws, .tuple vs', ?_, ?_, ?_, ?_, ?_⟩
+      refine ⟨.paren ss (ss.length == 1), .tuple ws, .tuple vs', ?_, ?_, ?_, ?_, ?_, ?_⟩
       · simp [formatValue, seqItems?, g1]
       · simp [literalEval, g2, parenValue_len ws ss.length hlen]
       · have : ws.length = elems.length := by omega
         simp [call, conv, seqItems?, this, g3, mapErr, Except.map]
       · simp [formatValue, seqItems?, g4]
       · simpa [SameButFloats] using g5
-  | .struct _ _ _, _, _, _, hns, _, _ => by simp [NoStruct] at hns
+      · simpa [Sendable] using g9
+  | .struct ms opt cl, pos, v, hwf, hv, hc, htc => by
+    cases v <;> simp only [Valid, InSetG] at hv <;> try exact hv.elim
+    case dict fields =>
+      simp only [WFT] at hwf
+      simp only [Canon] at hc
+      simp only [TextComplete] at htc
+      obtain ⟨hmem, hnd, hmand⟩ := hv
+      obtain ⟨hall, htcm⟩ := htc
+      have hcf := canonFields_mem fields hc
+      obtain ⟨sfs, ws, vs', g1, g2, g3, g4, g5, g6, g7, g8, g9⟩ :=
+        fields_tr hl (f := formatMember lib pos 0 ms) (g := convMember .call ms) (Q := SendableMember ms) fields [] []
+          (fun kv hkv => text_core_member lib hl ms pos 0 kv.1 kv.2 hwf (hmem kv hkv) (hcf kv hkv) (htcm kv hkv))
+          hnd (by simp) (by simp)
+      simp only [List.nil_append] at g2 g3
+      have hkeys : ∀ kv ∈ ws, kv.1 ∈ ms.map (·.1) := by
+        intro kv hkv
+        have : kv.1 ∈ fields.map (·.1) := by rw [← g6]; exact List.mem_map.mpr ⟨kv, hkv, rfl⟩
+        obtain ⟨kv', hkv', he⟩ := List.mem_map.mp this
+        rw [← he]
+        exact (memberIn_key ms kv'.1 kv'.2 (hmem kv' hkv')).1
+      have hcheck : structCheck (ms.map (·.1)) opt cl ws = true := by
+        refine structCheck_ok' _ _ _ _ hkeys g8 (fun k hk => ?_)
+        rw [g6]
+        cases cl with
+        | false => exact Or.inr (hall rfl k hk)
+        | true =>
+          by_cases ho : k ∈ opt
+          · exact Or.inl ⟨rfl, ho⟩
+          · exact Or.inr (hmand k hk ho)
+      have hmode : (cl || (Mode.call == Mode.validate)) = cl := by cases cl <;> rfl
+      refine ⟨.dict sfs, .dict ws, .dict vs', ?_, ?_, ?_, ?_, ?_, ?_⟩
+      · simp [formatValue, g1]
+      · simp [literalEval, g2]
+      · simp [call, conv, hmode, hcheck, structFold, foldFields, g3, mapErr, Except.map]
+      · simp [formatValue, g4]
+      · simpa [SameButFloats] using g5
+      · simp only [Sendable]
+        exact ⟨g9, by rw [g7]; exact hnd, by rw [g7]; exact hmand⟩
 theorem text_core_zip (lib : TextLib F) (hl : TextLib.Lawful lib) : ∀ (ts : List (DType F)) (pos : List Nat) (i : Nat) (vs : List (PVal F)),
-    WFList ts → NoStructList ts → ZipInG SnapFix ts vs → CanonList vs →
+    WFTList ts → ZipInG SnapFix ts vs → CanonList vs → TextCompleteZip ts vs →
     ∃ ss ws vs', formatTuple lib pos i ts vs = some ss ∧ literalEvalList lib ss = some ws ∧
       convTuple .call ts ws none = .ok vs' ∧ formatTuple lib pos i ts vs' = some ss ∧ SameButFloatsList vs' vs ∧
-      ws.length = ts.length ∧ ss.length = ts.length ∧ vs'.length = ts.length
+      ws.length = ts.length ∧ ss.length = ts.length ∧ vs'.length = ts.length ∧ SendableZip ts vs'
   | [], pos, i, [], _, _, _, _ =>
-    ⟨[], [], [], rfl, by simp [literalEvalList], rfl, rfl, by simp [SameButFloatsList], rfl, rfl, rfl⟩
-  | t :: ts, pos, i, v :: vs, hwf, hns, hz, hc => by
-    simp only [WFList] at hwf
-    simp only [NoStructList] at hns
+    ⟨[], [], [], rfl, by simp [literalEvalList], rfl, rfl, by simp [SameButFloatsList], rfl, rfl, rfl, by simp [SendableZip]⟩
+  | t :: ts, pos, i, v :: vs, hwf, hz, hc, htc => by
+    simp only [WFTList] at hwf
     simp only [ZipInG] at hz
     simp only [CanonList] at hc
-    obtain ⟨s, w, v', h1, h2, h3, h4, h5⟩ := text_core lib hl t (pos ++ [i]) v hwf.1 hns.1 hz.1 hc.1
-    obtain ⟨ss, ws, vs', g1, g2, g3, g4, g5, g6, g7, g8⟩ := text_core_zip lib hl ts pos (i + 1) vs hwf.2 hns.2 hz.2 hc.2
-    refine ⟨s :: ss, w :: ws, v' :: vs', ?_, ?_, ?_, ?_, ?_, ?_, ?_, ?_⟩
+    simp only [TextCompleteZip] at htc
+    obtain ⟨s, w, v', h1, h2, h3, h4, h5, h6⟩ := text_core lib hl t (pos ++ [i]) v hwf.1 hz.1 hc.1 htc.1
+    obtain ⟨ss, ws, vs', g1, g2, g3, g4, g5, g6, g7, g8, g9⟩ := text_core_zip lib hl ts pos (i + 1) vs hwf.2 hz.2 hc.2 htc.2
+    refine ⟨s :: ss, w :: ws, v' :: vs', ?_, ?_, ?_, ?_, ?_, ?_, ?_, ?_, ?_⟩
     · simp [formatTuple, h1, g1]
     · simp [literalEvalList, h2, g2]
     · simp only [call] at h3
@@ -188,8 +433,33 @@ theorem text_core_zip (lib : TextLib F) (hl : TextLib.Lawful lib) : ∀ (ts : Li
     · simp [g6]
     · simp [g7]
     · simp [g8]
-  | [], _, _, _ :: _, _, _, hz, _ => by simp [ZipInG] at hz
-  | _ :: _, _, _, [], _, _, hz, _ => by simp [ZipInG] at hz
+    · simp [SendableZip, h6, g9]
+  | [], _, _, _ :: _, _, hz, _, _ => by simp [ZipInG] at hz
+  | _ :: _, _, _, [], _, hz, _, _ => by simp [ZipInG] at hz
+theorem text_core_member (lib : TextLib F) (hl : TextLib.Lawful lib) : ∀ (ms : List (String × DType F)) (pos : List Nat) (i : Nat)
+    (k : String) (v : PVal F), WFTFields ms → MemberInG SnapFix ms k v → Canon v → TextCompleteMember ms k v →
+    ∃ s w v', formatMember lib pos i ms k v = some s ∧ literalEval lib s = some w ∧ w ≠ .none ∧
+      convMember .call ms k w = some (.ok v') ∧ formatMember lib pos i ms k v' = some s ∧ SameButFloats v' v ∧
+      SendableMember ms k v'
+  | [], _, _, _, _, _, h, _, _ => by simp [MemberInG] at h
+  | (k', t) :: rest, pos, i, k, v, hwf, h, hc, htc => by
+    simp only [WFTFields] at hwf
+    simp only [MemberInG] at h
+    simp only [TextCompleteMember] at htc
+    by_cases e : k' = k
+    · simp only [e, if_true] at h htc
+      obtain ⟨s, w, v', h1, h2, h3, h4, h5, h6⟩ := text_core lib hl t (pos ++ [i]) v hwf.1 h hc htc
+      refine ⟨s, w, v', by simp [formatMember, e, h1], h2, ?_, ?_, by simp [formatMember, e, h4], h5,
+        by simp [SendableMember, e, h6]⟩
+      · intro hw
+        subst hw
+        exact call_ne_none t v' h3
+      · simp only [call] at h3
+        simp [convMember, e, h3]
+    · simp only [e, if_false] at h htc
+      obtain ⟨s, w, v', h1, h2, hw, h3, h4, h5, h6⟩ := text_core_member lib hl rest pos (i + 1) k v hwf.2 h hc htc
+      exact ⟨s, w, v', by simp [formatMember, e, h1], h2, hw, by simp [convMember, e, h3], by simp [formatMember, e, h4], h5,
+        by simp [SendableMember, e, h6]⟩
 end
 
 end Frappy.Lemmas.C02
